@@ -9,8 +9,8 @@ import c12_fail
 
 COQ_FILES = ("Base/Bytes.v", "L4_Eval/Store.v", "L5_Stores/Lru.v", "L5_Stores/RunStore.v", "L5_Stores/LruProofs.v", "L5_Stores/LruMulti.v",
              "Extracted/ConstLru.v", "Properties/C12.v", "Properties/C12b.v", "Base/PyRt.v", "Extracted/GenLru.v", "Extracted/GenCacheOpt.v", "L5_Stores/GenLruProofs.v", "L5_Stores/GenCacheOptProofs.v", "Properties/C12g.v")
-PROPERTY_FILES = ("C12", "C12b", "C12g")
-EXTRACTED = ("ConstLru", "GenLru", "GenCacheOpt")
+PROPERTY_FILES = ("C12", "C12b", "C12g", "C12m")
+EXTRACTED = ("ConstLru", "GenLru", "GenCacheOpt", "GenMemStore")
 ALLOWED_AXIOMS = ()
 
 PRELUDE = """From Coq Require Import List String ZArith NArith.
